@@ -59,6 +59,10 @@ BAD = [
     ("A.add_bases(KC): same clash one level up (sub space B holds the input)", lambda M: M.A.add_bases(M.KC)),
     ("B.f.formula = malformed on a DERIVED cells", lambda M: setattr(M.B.f, "formula", "lambda t: (")),
     ("A.f.is_cached = 'x'? (valid: truthy) / A.f.allow_none = 3 (valid) -> rename cells to keyword", lambda M: M.A.f.rename("lambda")),
+    ("A.set_ref('r', C.f, 'relative') over the existing data reference r (out of scope for the sub space B)", lambda M: M.A.set_ref("r", M.C.f, "relative")),
+    ("X.set_ref('rr', D, 'bogus') over an existing reference", lambda M: M.X.set_ref("rr", M.D, "bogus")),
+    ("A.u.rename('h'): the sub space B defines a cells h of its own (refused, or B.h must stay B's own definition)", lambda M: M.A.u.rename("h"),
+     lambda M: None if (M.B.h.formula.source == "lambda: f(1) + f(5)" and not M.B.h._is_derived()) else "the sub space's own cells was replaced by the renamed one: %r" % M.B.h.formula.source),
 ]
 BAD = [b for b in BAD if b[1] is not None]
 
@@ -152,6 +156,10 @@ def rejected(r: int, g: int, inp: int, op: int, pre: bool) -> bool:
     if not check(wf is None, "model well-formed after the operation", lambda: wf):
         return False
     if res[0] == "ok":
+        if len(BAD[op]) > 2:            # accepted: the well-formedness clause applies, and the operation's own post-condition
+            with notrace():
+                msg = BAD[op][2](M)
+            return check(msg is None, "an accepted operation silently replaced another definition", lambda: msg)
         return True                     # modelx accepted it: only the well-formedness clause applies
     with notrace():
         after = describe(M.m)
@@ -175,6 +183,28 @@ def rejected(r: int, g: int, inp: int, op: int, pre: bool) -> bool:
     got = M.observe()
     for k in sorted(exp):
         if not check(got[k][0] == "ok" and got[k][1] == exp[k], "value %s correct after a rejected operation" % k, lambda: (got[k], exp[k])):
+            return False
+    # ---- nothing else was half-done: the bookkeeping behind the definitions still supports the ordinary follow-up edits
+    io = call(lambda: list(M.m.iospecs))
+    if not check(io[0] == "ok" and io[1] == [], "model.iospecs readable after a rejected operation", lambda: io):
+        return False
+    for what, fn in (("del A.r", lambda: delattr(M.m.A, "r")), ("A.r = value again", lambda: setattr(M.m.A, "r", vals["r"])),
+                     ("del X.rr", lambda: delattr(M.m.X, "rr")), ("del m.gr ; m.gr = value", lambda: (delattr(M.m, "gr"), setattr(M.m, "gr", vals["g"])))):
+        e = call(fn)
+        if not check(e[0] == "ok", "legal follow-up edit after a rejected operation: %s" % what, lambda: e):
+            return False
+    with notrace():
+        sane = True
+        try:
+            mx.core.mxsys._check_sanity()
+            M.m._impl._check_sanity()
+        except AssertionError:
+            sane = False
+    if not check(sane, "self-check after the follow-up edits"):
+        return False
+    got = M.observe()
+    for k in sorted(exp):
+        if not check(got[k][0] == "ok" and got[k][1] == exp[k], "value %s correct after the follow-up edits" % k, lambda: (got[k], exp[k])):
             return False
     return True
 
